@@ -21,11 +21,18 @@
 (*   tab, Es (error weight rows, fsal only), f (field), t, y, hs (steps)   *)
 (***************************************************************************)
 EXTENDS RKTableau, TLC, Json
+LOCAL INSTANCE SequencesExt      \* SetToSeq
 
 CONSTANT Instances
 VARIABLE inst
-Init == inst \in Instances
-Next == UNCHANGED inst
+
+\* TLC computes initial states on one thread; the instances are therefore successors of NCH
+\* "chunk" states, so that the workers share the evaluation of the expected values.
+NCH == 16
+InstSeq == SetToSeq(Instances)
+Init == inst \in {[fam |-> "chunk", c |-> c] : c \in 0 .. (NCH - 1)}
+Next == /\ inst.fam = "chunk"
+        /\ \E k \in 1 .. Len(InstSeq) : (k % NCH = inst.c) /\ inst' = InstSeq[k]
 Spec == Init /\ [][Next]_inst
 
 ASSUME RatLaws
@@ -158,7 +165,7 @@ Expected(i) ==
       [] i.fam = "run"  -> [k |-> <<>>, high |-> <<>>, low |-> <<>>, err |-> <<>>, errs |-> <<>>,
                             states |-> FixedRun(i.tab, i.f, i.t, i.y, i.hs)]
 
-StepEmitted == PrintT(ToJson([inst |-> inst, out |-> Expected(inst)]))
+StepEmitted == (inst.fam # "chunk") => PrintT(ToJson([inst |-> inst, out |-> Expected(inst)]))
 
 (* ---------------- laws on every instance ---------------- *)
 \* err is high - low; without low-order weights low = high and err = 0
